@@ -128,7 +128,7 @@ where
     }
     // swaps / replacements of messages with different contents
     let mut pairs: Vec<(usize, usize)> = vec![];
-    if l <= 12 {
+    if l <= 12 || (!c.light && l <= 33 && c.mut_seed % 2 == 0) {
         for i in 0..l {
             for j in i + 1..l {
                 pairs.push((i, j));
@@ -350,7 +350,29 @@ fn sweep_cases(seed: u64, counts: impl Iterator<Item = usize>) -> Vec<Case> {
         .collect()
 }
 
+/// 16 threads verify honest and edited statements of different sizes at once, starting in a cold process
+fn contention(ctx: &Ctx, rep: &Report) {
+    let ck = "contention";
+    let sizes = [20usize, 40, 70, 17, 100, 33, 65, 24];
+    let r = contend(ck, ctx.workers.max(4), ctx.tier.pick(2, 8), |t, round| {
+        let l = sizes[(t + round * 3) % sizes.len()];
+        let c = Case {
+            suite: if (t + round) % 2 == 0 { SuiteId::Sha256 } else { SuiteId::Shake256 },
+            key: KeySpec { fixture: false, ikm: BSpec { len: 32, class: 0, seed: (t * 977 + round) as u32 }, key_info: OptBytes::None, key_dst: OptBytes::None },
+            header: OptBytes::Bytes(BSpec { len: 16, class: 0, seed: t as u32 }),
+            msgs: MsgVec { items: (0..l).map(|j| BSpec { len: 6, class: 0, seed: (t * 1000 + j) as u32 }).collect() },
+            mut_seed: (t * 31 + round) as u32 | 1,
+            light: true,
+        };
+        check(rep, ck, &c)
+    });
+    if let Err(f) = r {
+        rep.add_violation(f);
+    }
+}
+
 pub fn run(ctx: &Ctx, rep: &Report) -> Meta {
+    contention(ctx, rep);
     let fx = fixed_cases(ctx.seed);
     par_items(ctx, rep, "fixed-shapes", &fx, |c| check(rep, "fixed-shapes", c));
     let sweep: Vec<Case> = match ctx.tier {
